@@ -166,14 +166,21 @@ struct DescReader {
       if (u.code != d.code) res.repeated_diff_code = true;
     }
     // implicit codes: distinct free codes from 256 upwards in order of appearance
-    std::set<long> used;
-    for (auto &u : uniq) if (u.code >= 0) used.insert(u.code);
-    long next = 256;
-    for (auto &u : uniq) if (u.code == -1) {
-      res.has_implicit = true;
-      if (used.count(next)) U("an explicit code collides with the implicit numbering from 256");
-      while (used.count(next)) next++;
-      u.code = next; used.insert(next); next++;
+    // ("the terminal code will [be] the next free code starting with 256": a code given explicitly to a terminal
+    // declared EARLIER is certainly not free; whether a code given to a LATER terminal counts is left open, so the
+    // text is specified only when both readings assign the same codes)
+    {
+      std::set<long> used_all, used_before;
+      for (auto &u : uniq) if (u.code >= 0) used_all.insert(u.code);
+      long next_all = 256, next_before = 256;
+      for (auto &u : uniq) {
+        if (u.code >= 0) { used_before.insert(u.code); continue; }
+        res.has_implicit = true;
+        while (used_all.count(next_all)) next_all++;
+        while (used_before.count(next_before)) next_before++;
+        if (next_all != next_before) U("an explicit code of a later terminal collides with the implicit numbering from 256");
+        u.code = next_all; used_all.insert(next_all); used_before.insert(next_before); next_all++; next_before++;
+      }
     }
     for (auto &u : uniq) {
       if (u.code < -1 || u.code > INT_MAX) { U("code outside int / negative character code"); }
